@@ -41,6 +41,18 @@ def run(pid, tier):
     if s['events'] < 1000:
         raise ToolError('sup-drive produced too few events')
     lines = tr.read_text().splitlines()
+    pan = s.get('panicked_entries') or []
+    if pan:
+        # what panicked under the checking profile (debug assertions, overflow checks) is run again with the semantics of a
+        # user's optimised build: the release-mode behaviour (wrong value, hang) is then judged as well
+        build_harness(profile='relsem')
+        tr2 = wd / 'sup_relsem.ndjson'
+        s2 = rdv(['sup-drive', '--seed', sd, '--seeds', 2 if not thorough else 12, '--positions', 8, '--block-calls', 20000 if not thorough else 400000,
+                  '--sweep', (1 if not thorough else 2) if pid == 'C03' else 0, '--limit-ms', 2000, '--only-idx', ','.join(str(i) for i in pan[:60]),
+                  '--sem', 'release', '--out', tr2], timeout=14000, binary=VERIF / 'harness' / 'target' / 'relsem' / 'rdv')
+        o.extra['drive_release_semantics'] = s2
+        o.evaluations += s2['calls']
+        lines += tr2.read_text().splitlines()
     rule = 'support' if pid == 'C03' else 'budget'
     nbad = 0
     fams = set()
